@@ -22,6 +22,16 @@ import (
 
 var Cancelled = errors.New("transaction cancelled")
 
+// Which packet of the connect exchange is expected next.
+type connectState int
+
+const (
+	awaitingAuth connectState = iota
+	awaitingWillTopic
+	awaitingWillMsg
+	awaitingConnack
+)
+
 type connectTransaction struct {
 	*transactions.TimedTransaction
 	handler       *handler1
@@ -29,6 +39,7 @@ type connectTransaction struct {
 	authEnabled   bool
 	mqConnect     *mqPkts.ConnectPacket
 	authenticated bool
+	state         connectState
 }
 
 func newConnectTransaction(ctx context.Context, h *handler1, authEnabled bool, mqConnect *mqPkts.ConnectPacket) *connectTransaction {
@@ -69,18 +80,31 @@ func (t *connectTransaction) Start(ctx context.Context) error {
 
 	if t.authEnabled {
 		t.log.Debug("Waiting for AUTH packet.")
+		t.state = awaitingAuth
 		return nil
 	}
 
+	return t.gatherWill()
+}
+
+// Continue with the will part of the exchange, if any, or send MQTT connect.
+func (t *connectTransaction) gatherWill() error {
 	if t.mqConnect.WillFlag {
 		// Continue with WILLTOPICREQ.
+		t.state = awaitingWillTopic
 		return t.handler.snSend(snPkts1.NewWillTopicReq())
 	}
 
+	// All information successfully gathered - send MQTT connect.
+	t.state = awaitingConnack
 	return t.handler.mqttSend(t.mqConnect)
 }
 
 func (t *connectTransaction) Auth(snPkt *snPkts1.Auth) error {
+	if t.state != awaitingAuth {
+		t.log.Debug("Unexpected packet in %d: %v", t.state, snPkt)
+		return nil
+	}
 	// Extract username and password from PLAIN data.
 	if snPkt.Method == snPkts1.AUTH_PLAIN {
 		user, password, err := snPkt.DecodePlain()
@@ -92,6 +116,7 @@ func (t *connectTransaction) Auth(snPkt *snPkts1.Auth) error {
 		t.mqConnect.Username = user
 		t.mqConnect.PasswordFlag = true
 		t.mqConnect.Password = password
+		t.authenticated = true
 	} else {
 		if err := t.SendConnack(snPkts1.RC_NOT_SUPPORTED); err != nil {
 			return err
@@ -101,28 +126,39 @@ func (t *connectTransaction) Auth(snPkt *snPkts1.Auth) error {
 		return err
 	}
 
-	if t.mqConnect.WillFlag {
-		// Continue with WILLTOPICREQ.
-		return t.handler.snSend(snPkts1.NewWillTopicReq())
-	}
-
-	// All information successfully gathered - send MQTT connect.
-	return t.handler.mqttSend(t.mqConnect)
+	return t.gatherWill()
 }
 
 func (t *connectTransaction) WillTopic(snWillTopic *snPkts1.WillTopic) error {
+	if t.state != awaitingWillTopic {
+		t.log.Debug("Unexpected packet in %d: %v", t.state, snWillTopic)
+		return nil
+	}
+	if snWillTopic.WillTopic == "" {
+		// An empty WILLTOPIC means "no will".
+		// See MQTT-SN specification v. 1.2, chapter 5.4.7 WILLTOPIC.
+		t.mqConnect.WillFlag = false
+		t.state = awaitingConnack
+		return t.handler.mqttSend(t.mqConnect)
+	}
 	t.mqConnect.WillQos = snWillTopic.QOS
 	t.mqConnect.WillRetain = snWillTopic.Retain
 	t.mqConnect.WillTopic = snWillTopic.WillTopic
 
 	// Continue with WILLMSGREQ.
+	t.state = awaitingWillMsg
 	return t.handler.snSend(snPkts1.NewWillMsgReq())
 }
 
 func (t *connectTransaction) WillMsg(snWillMsg *snPkts1.WillMsg) error {
+	if t.state != awaitingWillMsg {
+		t.log.Debug("Unexpected packet in %d: %v", t.state, snWillMsg)
+		return nil
+	}
 	t.mqConnect.WillMessage = snWillMsg.WillMsg
 
 	// All information successfully gathered - send MQTT connect.
+	t.state = awaitingConnack
 	return t.handler.mqttSend(t.mqConnect)
 }
 
